@@ -7,7 +7,7 @@ CONSTANTS
   Apps = {"a1", "a2"}
   R = 4
   OOOCap = 2
-  Acts = {"NewAppender", "Append", "Commit", "Rollback", "Compact", "CompactOOO", "Reopen", "Mmap", "EvictSel", "EvictStale"}
+  Acts = {"NewAppender", "Append", "Commit", "Rollback", "Compact", "CompactOOO", "Reopen", "Mmap", "EvictSel", "CompactStale"}
   Apis = {"v1", "v2"}
   Rej = {FALSE}
   DelLo = {0}
